@@ -30,7 +30,7 @@ namespace heap {
    enum Policy : int { Ascending = 0, Descending = 1, Scatter = 2, Lifo = 3, PolicyCount = 4 };
    const char* policy_name(int);
 
-   constexpr int max_owners = 8;
+   constexpr int max_owners = 9;          // eight for clients, the last one for the process (see process_owner)
    // The last sub-arena is never reset: it receives what the library allocates once per process (lazily initialised
    // function-local statics) while the warm-up run executes, before the first simulated run.  Leak accounting never looks at it.
    constexpr int process_owner = max_owners - 1;
